@@ -66,7 +66,11 @@ def generate(seed, tier):
             ops.append({'op': 'clock', 'dt': rng.choice([100, 1000, 5000, 31_000, 120_000])})
     cfg = {'base': 'hreal', 'hard': rng.random() < 0.5, 'build': build, 'miners': miners, 'bots': rng.randint(1, 3),
            'wallet_keys': rng.randint(2, 6)}
-    if rng.random() < 0.3:
+    if rng.random() < 0.25:
+        # a short chain on the real genesis block: every height holds a different block, so the proof-of-work evidence (which
+        # samples ancestors by height) depends on the exact height and ancestry it is computed for
+        cfg.update({'base': 'hlow_easy', 'hard': False})
+    elif rng.random() < 0.3:
         # the served head sits just below a retarget boundary: the miner assembles the boundary block
         k = rng.randrange(5)
         span = 1_209_600
@@ -179,7 +183,9 @@ def execute(script):
                                     'assembling a candidate from the served head and the pending pool raised %s: %s' % (type(e).__name__, e))
                         stop['now'] = True
                         return
-                    summary, height, txs = watcher.mining_args[miner_id]
+                    ma_ = watcher.mining_args[miner_id]          # (summary, ..., transactions): only the ends are relied on here
+                    summary, txs = ma_[0], ma_[-1]
+                    height = summary.height
                     assembled[miner_id] = {'served_head': served_cs.current_chain_hash, 'key': key_before, 'pool_ids': pool_ids,
                                            'clock': int(node.clock_s()), 'served_cs': served_cs}
                     res.bump('candidates_assembled')
@@ -189,7 +195,9 @@ def execute(script):
                         res.violate(PROP, 'C12/candidate-time-not-after-parent', 'candidate dated %d, parent %d' % (summary.timestamp, parent.timestamp))
                     return
                 # scrypt_output
-                summary, height, txs = watcher.mining_args[miner_id]
+                ma_ = watcher.mining_args[miner_id]
+                summary, txs = ma_[0], ma_[-1]
+                height = summary.height
                 info = assembled.get(miner_id, {})
                 try:
                     ev = consensus.construct_pow_evidence_after_scrypt(data, watcher.coinstate, summary, height, txs)
@@ -211,7 +219,12 @@ def execute(script):
                 found = cand.hash() < cand.target
                 res.bump('hashes_returned')
                 if not found:
-                    watcher.handle_received_message(item)
+                    try:
+                        watcher.handle_received_message(item)
+                    except Exception as e:
+                        res.violate(PROP, 'C12/own-block-rejected', 'the miner-output handler raised %s for a hash that does not even win '
+                                    '(the miner\'s message loop ends)' % type(e).__name__, {'error': type(e).__name__, 'found': False})
+                        stop['now'] = True
                     return
                 res.bump('blocks_found')
                 bid = rules.block_id(cand)
